@@ -127,7 +127,7 @@ def in_context(ctx, call, i):
     raise ValueError(ctx)
 
 
-def taint_text(s, va, vk, tkey):
+def taint_text(s, va, vk, tkey, same=False):
     v = va if s['tgt'] == 'A' else vk
     empty = '()' if s['tgt'] == 'A' else '{}'
     how = s['how']
@@ -146,7 +146,8 @@ def taint_text(s, va, vk, tkey):
     if how == 'match_capture':
         return ['match %s:' % empty, '    case %s:' % v, '        pass']
     if how == 'default_capture':
-        return ['H(lambda c=%s: c)' % v]
+        # (same: the capturing parameter is spelled like the captured star -- the default is still evaluated in the enclosing scope)
+        return ['H(lambda %s=%s: %s)' % (v, v, v)] if same else ['H(lambda c=%s: c)' % v]
     if how == 'delete':
         return ['del %s' % v]
     if how == 'handover':
@@ -210,7 +211,7 @@ def render(prog, o, choice, variant=0):
                     late.append((g, i))
         else:
             tkey = c['tkey']
-            lines = taint_text(s, va, vk, tkey)
+            lines = taint_text(s, va, vk, tkey, c.get('same', False))
             if s['ctx'] == 'top':
                 emit(lines, i)
             elif s['ctx'] == 'dead':
@@ -483,7 +484,7 @@ def choose(prog, rnd, ncallee, same_callee, relay=False):
                                                                          for j, t in enumerate(prog) if j != i)
             out.append({'w': w, 'n': n, 'names': rnd.choice([[], [], [zname]]), 'relay': use_relay})
         elif s['k'] == 'taint':
-            out.append({'tkey': CALLEE_NAMES[0][3]})
+            out.append({'tkey': CALLEE_NAMES[0][3], 'same': rnd.random() < 0.5})
         else:
             out.append({})
     return out
